@@ -252,6 +252,7 @@ func (p c16) Gen(c *run.Ctx, idx int) (json.RawMessage, error) {
 		pf, d := mergeProfile(r)
 		pf.SplitValue, pf.BareEntity = 0, 0
 		pf.Descriptions = true
+		pf.EmptyAbstract = 0.5 // an interface nobody implements: possibleTypes is the empty list
 		return pf, d
 	})
 	if err != nil {
